@@ -43,11 +43,11 @@ var fpLit = regexp.MustCompile(`\(fp #b([01]) #b([01]{11}) #[bx]([0-9a-fA-F]+)\)
 var sliceLit = regexp.MustCompile(`\(mk-Slice (\(- \d+\)|\d+) (\(- \d+\)|\d+) (\(- \d+\)|\d+) (\(- \d+\)|\d+)\)`)
 
 type hint struct {
-	Name   string    `json:"name"`
-	Ints   []int64   `json:"ints"`
-	Floats []uint64  `json:"floats"`
-	Len    int       `json:"len"`
-	HasLen bool      `json:"haslen"`
+	Name   string   `json:"name"`
+	Ints   []int64  `json:"ints"`
+	Floats []uint64 `json:"floats"`
+	Len    int      `json:"len"`
+	HasLen bool     `json:"haslen"`
 }
 
 func modelHints(u *Unit, q *Query) []hint {
